@@ -4,7 +4,10 @@
    finite cell space: every operator of src/ast/operators.go x every tuple of the 19 operand type classes x
    every value context).  The domain of every theorem is the inductive type `cell` (resp. `ctx`, `ty`), which
    the enumerations all_cells / all_ctxs / all_tys cover completely (first theorem): statements decided by
-   vm_compute on the enumeration are statements about all cells. *)
+   vm_compute on the enumeration are statements about all cells.
+   History: on the pinned tree lowering_total was refuted in 37 cells (9 families) and the list-element context
+   failed for list-typed elements; both were repaired in /repo (KNOWN_FINDINGS.jsonl, `fixed: property=C02`),
+   the tables mirror the repaired code and the theorems are now the full statements. *)
 From Coq Require Import List Bool.
 Import ListNotations.
 From DDP Require Import Gen.OperatorEnum Lower.TcTable Lower.LowerTable Lower.Cells Lower.CellsProofs.
@@ -15,68 +18,25 @@ Theorem C02_enumeration_complete :
 Proof. exact (conj all_cells_complete (conj all_ctxs_complete all_tys_complete)). Qed.
 Print Assumptions C02_enumeration_complete.
 
-(* lowering_total — "every operator application that type-checks has a lowering whose IR is well typed and whose
-   IR type is the one of the type the checker assigned" — is FALSE for the tables of the pinned tree *)
-Theorem C02_lowering_total_refuted :
-  exists c t, tc c = Some t /\
-    ~ exists d v code, lower c = Ok d v code /\ ir_well_typed (Ok d v code) = true /\ d = ir t.
-Proof. exact lowering_total_refuted. Qed.
-Print Assumptions C02_lowering_total_refuted.
-
-(* ... and it fails on exactly these 37 cells (9 families: Betrag / unary minus of a Byte; plus, minus, mal of Zahl
-   and Byte; logisch und/oder/kontra with a Byte operand; shifts of mixed width) *)
-Theorem C02_lowering_total_fails_exactly :
-  forall c,
-    ~ (forall t, tc c = Some t ->
-         exists d v code, lower c = Ok d v code /\ ir_well_typed (Ok d v code) = true /\ d = ir t)
-    <-> In c
-      [ CUn UN_ABS (TB BByte); CUn UN_NEGATE (TB BByte);
-        CBin BIN_PLUS (TB BZahl) (TB BByte); CBin BIN_PLUS (TB BByte) (TB BZahl);
-        CBin BIN_PLUS (TB BByte) TAlias; CBin BIN_PLUS TAlias (TB BByte);
-        CBin BIN_MINUS (TB BZahl) (TB BByte); CBin BIN_MINUS (TB BByte) (TB BZahl);
-        CBin BIN_MINUS (TB BByte) TAlias; CBin BIN_MINUS TAlias (TB BByte);
-        CBin BIN_MULT (TB BZahl) (TB BByte); CBin BIN_MULT (TB BByte) (TB BZahl);
-        CBin BIN_MULT (TB BByte) TAlias; CBin BIN_MULT TAlias (TB BByte);
-        CBin BIN_LOGIC_AND (TB BZahl) (TB BByte); CBin BIN_LOGIC_AND (TB BByte) (TB BZahl);
-        CBin BIN_LOGIC_AND (TB BByte) (TB BByte); CBin BIN_LOGIC_AND (TB BByte) TAlias;
-        CBin BIN_LOGIC_AND TAlias (TB BByte);
-        CBin BIN_LOGIC_OR (TB BZahl) (TB BByte); CBin BIN_LOGIC_OR (TB BByte) (TB BZahl);
-        CBin BIN_LOGIC_OR (TB BByte) (TB BByte); CBin BIN_LOGIC_OR (TB BByte) TAlias;
-        CBin BIN_LOGIC_OR TAlias (TB BByte);
-        CBin BIN_LOGIC_XOR (TB BZahl) (TB BByte); CBin BIN_LOGIC_XOR (TB BByte) (TB BZahl);
-        CBin BIN_LOGIC_XOR (TB BByte) (TB BByte); CBin BIN_LOGIC_XOR (TB BByte) TAlias;
-        CBin BIN_LOGIC_XOR TAlias (TB BByte);
-        CBin BIN_LEFT_SHIFT (TB BZahl) (TB BByte); CBin BIN_LEFT_SHIFT (TB BByte) (TB BZahl);
-        CBin BIN_LEFT_SHIFT (TB BByte) TAlias; CBin BIN_LEFT_SHIFT TAlias (TB BByte);
-        CBin BIN_RIGHT_SHIFT (TB BZahl) (TB BByte); CBin BIN_RIGHT_SHIFT (TB BByte) (TB BZahl);
-        CBin BIN_RIGHT_SHIFT (TB BByte) TAlias; CBin BIN_RIGHT_SHIFT TAlias (TB BByte) ].
-Proof. exact lowering_total_fails_exactly. Qed.
-Print Assumptions C02_lowering_total_fails_exactly.
-
-(* what does hold: every other cell of the whole operator x type-class space *)
-Theorem C02_lowering_total_partial :
-  forall c t, ~ In c bad_cells_explicit -> tc c = Some t ->
+(* every operator application that type-checks has a lowering that neither aborts nor emits ill-typed IR, and whose
+   IR type is the one of the type the checker assigned — for every operator and every tuple of operand classes *)
+Theorem C02_lowering_total :
+  forall c t, tc c = Some t ->
     exists d v code, lower c = Ok d v code /\ ir_well_typed (Ok d v code) = true /\ d = ir t.
-Proof. exact lowering_total_partial. Qed.
-Print Assumptions C02_lowering_total_partial.
+Proof. exact lowering_total. Qed.
+Print Assumptions C02_lowering_total.
 
-Example C02_lowering_total_partial_nonvacuous :
-  ~ In (CBin BIN_PLUS (TB BByte) (TB BKomma)) bad_cells_explicit /\
-  tc (CBin BIN_PLUS (TB BByte) (TB BKomma)) = Some (TB BKomma) /\
-  lower (CBin BIN_PLUS (TB BByte) (TB BKomma)) = Ok (Sc F64) (Sc F64) [IConv UIToFP (Sc I8) (Sc F64); IFBin (Sc F64) (Sc F64)].
-Proof.
-  split; [ | split; reflexivity].
-  intros H. vm_compute in H.
-  repeat (destruct H as [H | H]; [discriminate H | ]). exact H.
-Qed.
+Example C02_lowering_total_nonvacuous :
+  tc (CUn UN_NEGATE (TB BByte)) = Some (TB BZahl) /\
+  lower (CUn UN_NEGATE (TB BByte)) = Ok (Sc I64) (Sc I64) [IConv ZExt (Sc I8) (Sc I64); IBinC (Sc I64)] /\
+  tc (CBin BIN_LOGIC_AND (TB BZahl) (TB BByte)) = Some (TB BZahl) /\
+  lower (CBin BIN_LOGIC_AND (TB BZahl) (TB BByte)) = Ok (Sc I64) (Sc I64) [IConv ZExt (Sc I8) (Sc I64); IBin (Sc I64) (Sc I64)].
+Proof. repeat split; reflexivity. Qed.
 
 (* value contexts (initialiser, assignment, argument, return value, condition, list element): whenever the checker
-   admits an expression of type t in context x, the code generator serves it for a consistently lowered operand —
-   except the list literal whose element is itself a list *)
+   admits an expression of type t in context x, the code generator serves it for a consistently lowered operand *)
 Theorem C02_context_consistent :
   forall x t, ctx_admits x t = true ->
-    ~ In (x, t) [ (CElem, TL BZahl); (CElem, TL BKomma); (CElem, TL BByte); (CElem, TL BBool); (CElem, TL BChar);
-                  (CElem, TL BText); (CElem, TL BStruct); (CElem, TL BAny); (CElem, TL BDef) ] ->
     exists d v code, lower_ctx x t (ir t) (ir t) = Ok d v code /\ code_verdict code = VOk.
 Proof. exact context_consistent_code. Qed.
 Print Assumptions C02_context_consistent.
@@ -84,26 +44,21 @@ Print Assumptions C02_context_consistent.
 Example C02_context_consistent_nonvacuous :
   ctx_admits (CInit (TB BByte)) (TB BZahl) = true /\
   lower_ctx (CInit (TB BByte)) (TB BZahl) (Sc I64) (Sc I64) =
-    Ok (Sc I8) (Sc I8) [IConv Trunc (Sc I64) (Sc I8); IStore (Sc I8) (Sc I8)].
-Proof. split; reflexivity. Qed.
+    Ok (Sc I8) (Sc I8) [IConv Trunc (Sc I64) (Sc I8); IStore (Sc I8) (Sc I8)] /\
+  ctx_admits CElem (TL BZahl) = false.
+Proof. repeat split; reflexivity. Qed.
 
-Theorem C02_context_elem_refuted :
-  exists t, ctx_admits CElem t = true /\ lower_ctx CElem t (ir t) (ir t) = Err.
-Proof. exact context_elem_refuted. Qed.
-Print Assumptions C02_context_elem_refuted.
+(* end to end on the model: whatever the frontend admits — any cell, in any context its type is admitted in — is
+   compiled (no internal error, IR accepted by llir and LLVM) *)
+Theorem C02_admitted_cells_compile :
+  forall c x t, tc c = Some t -> ctx_admits x t = true -> verdict_of c x = VOk.
+Proof. exact admitted_cells_compile. Qed.
+Print Assumptions C02_admitted_cells_compile.
 
-(* end to end on the model: a cell that satisfies lowering_total, in a context the checker admits and the code
-   generator can serve, is compiled (no internal error, IR accepted) *)
-Theorem C02_good_cells_compile :
-  forall c x t, tc c = Some t -> cell_ok c = true -> ctx_admits x t = true -> ctx_ok x t = true ->
-    verdict_of c x = VOk.
-Proof. exact good_cells_compile. Qed.
-Print Assumptions C02_good_cells_compile.
-
-Example C02_good_cells_compile_nonvacuous :
+Example C02_admitted_cells_compile_nonvacuous :
   let c := CTer TER_FALLS (TL BText) (TB BBool) (TL BText) in
-  tc c = Some (TL BText) /\ cell_ok c = true /\ ctx_admits (CReturn (TL BText)) (TL BText) = true /\
-  ctx_ok (CReturn (TL BText)) (TL BText) = true /\ verdict_of c (CReturn (TL BText)) = VOk.
+  tc c = Some (TL BText) /\ ctx_admits (CReturn (TL BText)) (TL BText) = true /\
+  verdict_of c (CReturn (TL BText)) = VOk.
 Proof. repeat split; reflexivity. Qed.
 
 (* cell_ok is exactly lowering_total at the cell, and the frontend verdict of the model is exactly the checker table *)
